@@ -12,8 +12,8 @@ CONSTANTS
   LastOpDoneShortcut = TRUE
   TmpCleanAfterResume = TRUE
   Sinks = {"s1", "s2"}
-  MaxId = 3
-  MaxWal = 2
+  MaxId = 2
+  MaxWal = 1
   MaxTerm = 2
   MaxIdx = 2
   GenDepth = 14
